@@ -42,7 +42,10 @@ structure MethodInfo (F M : Type) where
   lock : LockKind
   /-- index of that statement in the body (0 = first statement) -/
   lockIndex : Nat
-  /-- the statement right after it is `defer m.rwLock.Unlock()` resp. `RUnlock()` -/
+  /-- the lock is held for exactly the rest of the body: the statement right after the acquire is
+  `defer m.rwLock.Unlock()` resp. `RUnlock()`, or (recognised by the translator's
+  `explicitRelease`) the matching release stands immediately before every `return` and before the
+  end of the body, with no mention of the receiver after a release -/
   deferred : Bool
   /-- number of OTHER operations on the mutex anywhere in the body (must be 0) -/
   extraLockOps : Nat
